@@ -213,6 +213,21 @@ Proof.
     destruct H as [[H|[H|[]]]|H]; subst; try (rewrite path_eqb_refl in *; discriminate); assumption.
 Qed.
 
+Lemma kind_apply_ext : forall e f f' x,
+  In x (touched e) \/ kind_of (lookup f x) = kind_of (lookup f' x) ->
+  kind_of (lookup (apply e f) x) = kind_of (lookup (apply e f') x).
+Proof.
+  intros e f f' x H. destruct e; cbn [apply touched In] in *.
+  - destruct H as [[]|H]; assumption.
+  - rewrite !lookup_set. destruct (path_eqb p x) eqn:E; [reflexivity|].
+    destruct H as [[H|[]]|H]; [subst; rewrite path_eqb_refl in E; discriminate | assumption].
+  - rewrite !lookup_remove. destruct (path_eqb p x) eqn:E; [reflexivity|].
+    destruct H as [[H|[]]|H]; [subst; rewrite path_eqb_refl in E; discriminate | assumption].
+  - rewrite !lookup_set, !lookup_remove. destruct (path_eqb q x) eqn:E; [reflexivity|].
+    destruct (path_eqb p x) eqn:E2; [reflexivity|].
+    destruct H as [[H|[H|[]]]|H]; subst; try (rewrite path_eqb_refl in *; discriminate); assumption.
+Qed.
+
 (* ------------------------------------------------------------------ tactics for decide *)
 Ltac dcase H :=
   match type of H with
@@ -254,10 +269,11 @@ Proof. intros. unfold top_name. rewrite strip_app. reflexivity. Qed.
 Definition inv (c : config) (N : list Z) (b : bk) : Prop :=
   (forall p, In p (b_created b) -> In p (b_owned b) \/ in_cone c N p = true) /\
   (forall d, In d (b_dirs b) -> in_cone c N d = true) /\
-  (forall p, In p (b_owned b) -> In p (c_outputs c)).
+  (forall p, In p (b_owned b) -> In p (c_outputs c)) /\
+  incl (b_names b) N.
 
 Lemma inv_bk0 : forall c N, inv c N bk0.
-Proof. intros. repeat split; simpl; intros; contradiction. Qed.
+Proof. intros. repeat split; simpl; intros; try contradiction. intros x []. Qed.
 
 Lemma in_cone_app : forall c N d n, in_cone c N d = true -> in_cone c N (d ++ [n]) = true.
 Proof.
@@ -294,7 +310,8 @@ Proof.
 Qed.
 
 Ltac bk_simpl :=
-  cbn [b_created b_dirs b_owned b_done with_created with_owned with_dirs finished] in *.
+  cbn [b_created b_dirs b_owned b_new b_names b_done with_created with_owned with_dirs with_new with_names
+       named finished] in *.
 
 Ltac in_simpl :=
   repeat (match goal with
@@ -310,10 +327,12 @@ Proof.
   intros c N f b o e b' Hinv Hn H.
   assert (HC : forall p, incl (top_name c p) N -> creatable c b p = true -> in_cone c N p = true)
     by (intros; eapply creatable_cone; eauto).
-  destruct Hinv as [I1 [I2 I3]].
+  destruct Hinv as [I1 [I2 [I3 I4]]].
+  assert (N4 : incl (b_names b') N).
+  { decide_inv H; bk_simpl; cbn [op_fresh] in Hn; auto; apply incl_app; auto. }
   decide_inv H; norm; try (repeat split; assumption);
     cbn [op_fresh] in Hn;
-    (repeat split; bk_simpl; intros x Hx; in_simpl;
+    (refine (conj _ (conj _ (conj _ N4))); bk_simpl; intros x Hx; in_simpl;
      try (destruct Hx as [Hx|Hx]; [subst|]); in_simpl; eauto;
      try (destruct Hx as [Hx1 Hx2]); eauto).
   all: try (left; apply In_add; eauto; fail).
@@ -368,20 +387,38 @@ Definition readable (c : config) (b : bk) (o : op) (p : path) : Prop :=
   | Rename x y => mem x (b_created b) = true /\
                   (p = x \/ (p = y /\ (mem y (b_created b) = true \/
                                        (mem y (c_outputs c) = false /\ creatable c b y = true))))
-  | ListDir _ | Return _ => False
+  | ListDir x => mem x (b_dirs b) = true /\ under x p = true
+  | Return _ | Stat _ _ => False
   end.
 
-Lemma decide_ext : forall c f f' b o,
-  (forall p, readable c b o p -> lookup f p = lookup f' p) -> decide c f b o = decide c f' b o.
+(* ... and the paths of which it looks at the kind only (absent / file / directory) *)
+Definition kreadable (c : config) (b : bk) (o : op) (p : path) : Prop :=
+  match o with
+  | Stat x _ => p = x /\ statable c b x = true
+  | Create x _ _ => p = x /\ mem x (c_outputs c) = true
+  | Rename _ y => p = y /\ mem y (c_outputs c) = true
+  | _ => False
+  end.
+
+Lemma new_out_kind : forall e e' p l, kind_of e = kind_of e' -> new_out e p l = new_out e' p l.
 Proof.
-  intros c f f' b o H. unfold decide. destruct (b_done b); [reflexivity|].
-  destruct o as [x|x cid|x t cid|x|x|x|x y|x|ok]; cbn [readable] in H.
+  intros e e' p l H. destruct e as [[[|] x]|]; destruct e' as [[[|] y]|]; simpl in *; try discriminate; reflexivity.
+Qed.
+
+Lemma decide_ext : forall c f f' b o,
+  (forall p, readable c b o p -> lookup f p = lookup f' p) ->
+  (forall p, kreadable c b o p -> kind_of (lookup f p) = kind_of (lookup f' p)) ->
+  decide c f b o = decide c f' b o.
+Proof.
+  intros c f f' b o H HK. unfold decide. destruct (b_done b); [reflexivity|].
+  destruct o as [x|x cid|x t cid|x|x|x|x y|x|ok|x r]; cbn [readable kreadable] in H, HK.
   - destruct (mem x (c_inputs c) || mem x (b_created b)) eqn:E; [|reflexivity].
     rewrite (H x) by auto. reflexivity.
   - destruct (mem x (b_created b) || wq c x) eqn:E; [|reflexivity].
     rewrite (H x) by auto. reflexivity.
   - destruct (mem x (b_created b)) eqn:E1; [rewrite (H x) by auto; reflexivity|].
-    destruct (mem x (c_outputs c)) eqn:E2; [reflexivity|].
+    destruct (mem x (c_outputs c)) eqn:E2.
+    { rewrite (new_out_kind (lookup f x) (lookup f' x)) by (apply HK; auto). reflexivity. }
     destruct (creatable c b x) eqn:E3; [|reflexivity]. rewrite (H x) by auto. reflexivity.
   - destruct (mem x (c_outputs c)) eqn:E2; [reflexivity|].
     destruct (creatable c b x) eqn:E3; [|reflexivity]. rewrite (H x) by auto. reflexivity.
@@ -391,11 +428,14 @@ Proof.
   - destruct (mem x (b_created b)) eqn:E1; [|reflexivity]. rewrite (H x) by auto.
     destruct (lookup f' x) as [[[|] cid]|]; try reflexivity.
     destruct (path_eqb x y); [reflexivity|].
+    destruct (removable c b x); [|reflexivity].
     destruct (mem y (b_created b)) eqn:E2; [rewrite (H y) by auto; reflexivity|].
-    destruct (mem y (c_outputs c)) eqn:E3; [reflexivity|].
+    destruct (mem y (c_outputs c)) eqn:E3.
+    { rewrite (new_out_kind (lookup f y) (lookup f' y)) by (apply HK; auto). reflexivity. }
     destruct (creatable c b y) eqn:E4; [|reflexivity]. rewrite (H y) by auto 6. reflexivity.
   - reflexivity.
   - reflexivity.
+  - destruct (statable c b x) eqn:E; [|reflexivity]. rewrite (HK x) by auto. reflexivity.
 Qed.
 
 (* the part of the file system a run depends on, given the names N it makes in scratch *)
@@ -408,10 +448,10 @@ Proof.
   intros c N b o p Hinv Hn H.
   assert (HC : forall p, incl (top_name c p) N -> creatable c b p = true -> in_cone c N p = true)
     by (intros; eapply creatable_cone; eauto).
-  destruct Hinv as [I1 [I2 I3]]. unfold region.
+  destruct Hinv as [I1 [I2 [I3 I4]]]. unfold region.
   assert (CR : forall x, In x (b_created b) -> in_cone c N x = true \/ In x (c_inputs c) \/ wq c x = true \/ In x (b_owned b))
     by (intros x Hx; destruct (I1 _ Hx); auto).
-  destruct o as [x|x cid|x t cid|x|x|x|x y|x|ok]; cbn [readable op_fresh] in *.
+  destruct o as [x|x cid|x t cid|x|x|x|x y|x|ok|x r]; cbn [readable op_fresh] in *.
   - destruct H as [-> H]. norm. destruct H as [H|H]; norm; auto.
   - destruct H as [-> H]. norm. destruct H as [H|H]; norm; auto.
   - destruct H as [-> [H|[H1 H2]]]; norm; auto.
@@ -421,23 +461,54 @@ Proof.
     + left. auto.
     + left. eapply in_cone_under; eauto.
   - destruct H as [H [->|[-> [H2|[H2 H3]]]]]; norm; auto.
+  - destruct H as [H Hu]. norm. left. eapply in_cone_under; eauto.
   - contradiction.
   - contradiction.
 Qed.
 
 Definition agree (P : path -> Prop) (f f' : fs) : Prop := forall p, P p -> lookup f p = lookup f' p.
+(* the two file systems have the same KIND of entry (absent / file / directory) at every
+   declared path and every ancestor of one *)
+Definition kagree (c : config) (f f' : fs) : Prop :=
+  forall p, kregion c p = true -> kind_of (lookup f p) = kind_of (lookup f' p).
 
-(* one step of the same run on two file systems that agree on the run's region *)
+Lemma kregion_declared : forall c x, In x (declared c) -> kregion c x = true.
+Proof.
+  intros c x H. unfold kregion. apply existsb_exists. exists x. split; [right; assumption|].
+  apply is_prefix_spec. exists []. rewrite app_nil_r. reflexivity.
+Qed.
+
+Lemma kregion_output : forall c x, In x (c_outputs c) -> kregion c x = true.
+Proof. intros. apply kregion_declared. right. apply in_or_app. auto. Qed.
+
+Lemma kreadable_region : forall c N b o p,
+  inv c N b -> kreadable c b o p -> kregion c p = true \/ in_cone c N p = true.
+Proof.
+  intros c N b o p [_ [_ [_ I4]]] H.
+  destruct o as [x|x cid|x t cid|x|x|x|x y|x|ok|x r]; cbn [kreadable] in H; try contradiction.
+  - destruct H as [-> H]. left. apply kregion_output. apply mem_In. assumption.
+  - destruct H as [-> H]. left. apply kregion_output. apply mem_In. assumption.
+  - destruct H as [-> H]. unfold statable in H. apply orb_true_iff in H. destruct H as [H|H]; [auto|].
+    right. eapply in_cone_mono; eauto.
+Qed.
+
+(* one step of the same run on two file systems that agree on the run's region (and in kind
+   on the declared paths and their ancestors) *)
 Lemma step_sim : forall c N f f' b o g b',
-  inv c N b -> incl (op_fresh c o) N -> agree (region c N b) f f' ->
+  inv c N b -> incl (op_fresh c o) N -> agree (region c N b) f f' -> kagree c f f' ->
   step c f b o = Ok (g, b') ->
   exists g', step c f' b o = Ok (g', b') /\ agree (region c N b') g g' /\
-             (forall x, lookup f x = lookup f' x -> lookup g x = lookup g' x).
+             (forall x, lookup f x = lookup f' x -> lookup g x = lookup g' x) /\
+             (forall x, kind_of (lookup f x) = kind_of (lookup f' x) ->
+                        kind_of (lookup g x) = kind_of (lookup g' x)).
 Proof.
-  intros c N f f' b o g b' Hinv Hn Ha H. unfold step in *.
+  intros c N f f' b o g b' Hinv Hn Ha Hk H. unfold step in *.
   destruct (decide c f b o) as [[e b1]|code] eqn:D; [|discriminate]. inversion H; subst; clear H.
-  rewrite <- (decide_ext c f f' b o) by (intros p Hp; apply Ha; eapply readable_region; eauto).
-  rewrite D. eexists. split; [reflexivity|]. split.
+  rewrite <- (decide_ext c f f' b o).
+  2:{ intros p Hp. apply Ha. eapply readable_region; eauto. }
+  2:{ intros p Hp. destruct (kreadable_region c N b o p Hinv Hp) as [K|K]; [apply Hk; assumption|].
+      rewrite (Ha p) by (left; assumption). reflexivity. }
+  rewrite D. eexists. split; [reflexivity|]. split; [|split].
   - intros x Hx. apply lookup_apply_ext.
     destruct Hx as [Hx|[Hx|[Hx|Hx]]].
     + right. apply Ha. left. assumption.
@@ -446,6 +517,7 @@ Proof.
     + destruct (decide_new_owned _ _ _ _ _ _ _ D Hx) as [Ho|Ht]; [|left; assumption].
       right. apply Ha. right. right. right. assumption.
   - intros x Hx. apply lookup_apply_ext. right. assumption.
+  - intros x Hx. apply kind_apply_ext. right. assumption.
 Qed.
 
 (* ------------------------------------------------------------------ steps and folds *)
@@ -529,20 +601,24 @@ Proof.
 Qed.
 
 Lemma exec_sim : forall c N t f f' b g b',
-  inv c N b -> incl (fresh_names c t) N -> agree (region c N b) f f' ->
+  inv c N b -> incl (fresh_names c t) N -> agree (region c N b) f f' -> kagree c f f' ->
   exec c f b t = Ok (g, b') ->
   exists g', exec c f' b t = Ok (g', b') /\ agree (region c N b') g g' /\
-             (forall x, lookup f x = lookup f' x -> lookup g x = lookup g' x).
+             (forall x, lookup f x = lookup f' x -> lookup g x = lookup g' x) /\
+             (forall x, kind_of (lookup f x) = kind_of (lookup f' x) ->
+                        kind_of (lookup g x) = kind_of (lookup g' x)).
 Proof.
-  intros c N t. induction t as [|o t IH]; intros f f' b g b' Hi Hn Ha H; simpl in H.
+  intros c N t. induction t as [|o t IH]; intros f f' b g b' Hi Hn Ha Hk H; simpl in H.
   - inversion H; subst. exists f'. simpl. auto.
   - destruct (step c f b o) as [[f1 b1]|code] eqn:S; [|discriminate].
     rewrite fresh_cons in Hn.
-    destruct (step_sim c N f f' b o f1 b1 Hi (incl_app_l _ _ _ _ Hn) Ha S) as [f1' [S' [Ha1 Hp1]]].
+    destruct (step_sim c N f f' b o f1 b1 Hi (incl_app_l _ _ _ _ Hn) Ha Hk S) as [f1' [S' [Ha1 [Hp1 Hk1]]]].
     assert (Hi1 : inv c N b1) by (eapply step_keeps_inv; eauto; eapply incl_app_l; eauto).
-    destruct (IH f1 f1' b1 g b' Hi1 (incl_app_r _ _ _ _ Hn) Ha1 H) as [g' [E' [Ha' Hp']]].
-    exists g'. simpl. rewrite S'. split; [assumption|]. split; [assumption|].
-    intros x Hx. apply Hp'. apply Hp1. assumption.
+    assert (Hk' : kagree c f1 f1') by (intros x Hx; apply Hk1; apply Hk; assumption).
+    destruct (IH f1 f1' b1 g b' Hi1 (incl_app_r _ _ _ _ Hn) Ha1 Hk' H) as [g' [E' [Ha' [Hp' Hk2]]]].
+    exists g'. simpl. rewrite S'. split; [assumption|]. split; [assumption|]. split.
+    + intros x Hx. apply Hp'. apply Hp1. assumption.
+    + intros x Hx. apply Hk2. apply Hk1. assumption.
 Qed.
 
 (* accept = exec + "a Return was seen" *)
@@ -592,12 +668,13 @@ Theorem stale_independence_thm : forall c t f1 f2 g1,
   (forall p, In p (c_inputs c) -> lookup f1 p = lookup f2 p) ->
   (c_obsm c = true -> lookup f1 (c_query c) = lookup f2 (c_query c)) ->
   (forall p, in_cone c (fresh_names c t) p = true -> lookup f1 p = None /\ lookup f2 p = None) ->
+  kagree c f1 f2 ->
   accept c f1 t = Accepted g1 ->
   exists g2, accept c f2 t = Accepted g2 /\
     forall o, In o (c_outputs c) ->
       lookup g1 o = lookup g2 o \/ (lookup g1 o = lookup f1 o /\ lookup g2 o = lookup f2 o).
 Proof.
-  intros c t f1 f2 g1 Hout Hq Hin Hqq Hcone H.
+  intros c t f1 f2 g1 Hout Hq Hin Hqq Hcone Hk H.
   apply accept_exec in H. destruct H as [b' [E D]].
   set (N := fresh_names c t) in *.
   assert (Ha : agree (region c N bk0) f1 f2).
@@ -606,7 +683,7 @@ Proof.
     - apply Hin. assumption.
     - apply wq_spec in Hp. destruct Hp as [Ho ->]. apply Hqq. assumption.
     - simpl in Hp. contradiction. }
-  destruct (exec_sim c N t f1 f2 bk0 g1 b' (inv_bk0 c N) (incl_refl _) Ha E) as [g2 [E2 [Ha2 _]]].
+  destruct (exec_sim c N t f1 f2 bk0 g1 b' (inv_bk0 c N) (incl_refl _) Ha Hk E) as [g2 [E2 [Ha2 _]]].
   exists g2. split; [apply accept_exec; eauto|].
   intros o Ho. destruct (mem o (b_owned b')) eqn:M.
   - left. apply Ha2. right. right. right. apply mem_In. assumption.
@@ -821,7 +898,7 @@ Proof.
   intros c t. induction t as [|o t IH]; intros f b g b' D M H; simpl in *; [discriminate|].
   destruct (step c f b o) as [[f1 b1]|code] eqn:S; [|discriminate].
   apply step_decide in S. destruct S as [e [Dd _]]. apply decide_done in Dd.
-  destruct o as [x|x cid|x tr cid|x|x|x|x y|x|ok];
+  destruct o as [x|x cid|x tr cid|x|x|x|x y|x|ok|x r];
     try (simpl in M; eapply IH; eauto; fail).
   destruct Dd as [D1 Hc]. pose proof (exec_done_nil _ _ _ _ _ _ D1 H) as ->.
   simpl in H. inversion H; subst. simpl in M. rewrite orb_false_r in M. auto.
@@ -928,7 +1005,7 @@ Qed.
 
 Lemma region_reads : forall c N b p, inv c N b -> region c N b p -> reads c N p = true.
 Proof.
-  intros c N b p [_ [_ I3]] H. unfold reads. destruct H as [H|[H|[H|H]]].
+  intros c N b p [_ [_ [I3 _]]] H. unfold reads. destruct H as [H|[H|[H|H]]].
   - rewrite H. reflexivity.
   - apply mem_In in H. rewrite H. rewrite orb_true_r. reflexivity.
   - rewrite H. rewrite orb_true_r. reflexivity.
@@ -949,7 +1026,7 @@ Proof.
   intros c N f b o g b' x Hi Hn H Hw. apply writes_false in Hw. destruct Hw as [A [B C]].
   assert (Hi' : inv c N b') by (eapply step_keeps_inv; eauto).
   apply (step_frame c N f b o g b' x Hi Hn H A); [|exact C].
-  intro X. destruct Hi' as [_ [_ I3]]. apply I3 in X.
+  intro X. destruct Hi' as [_ [_ [I3 _]]]. apply I3 in X.
   apply mem_false in B. contradiction.
 Qed.
 
@@ -962,10 +1039,13 @@ Qed.
 Lemma exec2_sim : forall c1 c2 N1 N2,
   (forall x, writes c1 N1 x = true -> reads c2 N2 x = false) ->
   (forall x, writes c2 N2 x = true -> reads c1 N1 x = false) ->
+  (forall x, writes c1 N1 x = true -> kregion c2 x = false) ->
+  (forall x, writes c2 N2 x = true -> kregion c1 x = false) ->
   forall il f f1 f2 b1 b2 g1 b1' g2 b2',
   inv c1 N1 b1 -> inv c2 N2 b2 ->
   incl (fresh_names c1 (proj true il)) N1 -> incl (fresh_names c2 (proj false il)) N2 ->
   agree (region c1 N1 b1) f1 f -> agree (region c2 N2 b2) f2 f ->
+  kagree c1 f1 f -> kagree c2 f2 f ->
   exec c1 f1 b1 (proj true il) = Ok (g1, b1') -> exec c2 f2 b2 (proj false il) = Ok (g2, b2') ->
   exists g, exec2 c1 c2 f b1 b2 il = Ok (g, b1', b2') /\
     agree (region c1 N1 b1') g1 g /\ agree (region c2 N2 b2') g2 g /\
@@ -974,8 +1054,8 @@ Lemma exec2_sim : forall c1 c2 N1 N2,
     (forall x, in_cone c2 N2 x = false -> ~ In x (b_owned b2') -> wq c2 x = false ->
                writes c1 N1 x = false -> lookup g x = lookup f x).
 Proof.
-  intros c1 c2 N1 N2 S12 S21 il.
-  induction il as [|[w o] t IH]; intros f f1 f2 b1 b2 g1 b1' g2 b2' I1 I2 F1 F2 A1 A2 E1 E2.
+  intros c1 c2 N1 N2 S12 S21 SK12 SK21 il.
+  induction il as [|[w o] t IH]; intros f f1 f2 b1 b2 g1 b1' g2 b2' I1 I2 F1 F2 A1 A2 K1 K2 E1 E2.
   - simpl in *. inversion E1; subst. inversion E2; subst. exists f. repeat split; auto.
   - destruct w.
     + change (proj true ((true, o) :: t)) with (o :: proj true t) in *.
@@ -983,7 +1063,7 @@ Proof.
       simpl in E1. destruct (step c1 f1 b1 o) as [[h1 d1]|code] eqn:S; [|discriminate].
       rewrite fresh_cons in F1.
       pose proof (incl_app_l _ _ _ _ F1) as Fo. pose proof (incl_app_r _ _ _ _ F1) as Ft.
-      destruct (step_sim c1 N1 f1 f b1 o h1 d1 I1 Fo A1 S) as [h [S' [Ah _]]].
+      destruct (step_sim c1 N1 f1 f b1 o h1 d1 I1 Fo A1 K1 S) as [h [S' [Ah [_ Kh]]]].
       assert (I1' : inv c1 N1 d1) by (exact (step_keeps_inv c1 N1 f b1 o h d1 I1 Fo S')).
       assert (FR : forall x, writes c1 N1 x = false -> lookup h x = lookup f x)
         by (intros x Hw; exact (step_frame_w c1 N1 f b1 o h d1 x I1 Fo S' Hw)).
@@ -991,7 +1071,11 @@ Proof.
       { intros x Hx. rewrite (A2 x Hx). symmetry. apply FR.
         apply (reads_false_of_sep (reads c2 N2) (writes c1 N1) x S12).
         exact (region_reads c2 N2 b2 x I2 Hx). }
-      destruct (IH h h1 f2 d1 b2 g1 b1' g2 b2' I1' I2 Ft F2 Ah A2' E1 E2) as [g [X [B1 [B2 [G1 G2]]]]].
+      assert (K1' : kagree c1 h1 h) by (intros x Hx; apply Kh; apply K1; assumption).
+      assert (K2' : kagree c2 f2 h).
+      { intros x Hx. rewrite (K2 x Hx). rewrite FR; [reflexivity|].
+        apply (reads_false_of_sep (kregion c2) (writes c1 N1) x SK12). assumption. }
+      destruct (IH h h1 f2 d1 b2 g1 b1' g2 b2' I1' I2 Ft F2 Ah A2' K1' K2' E1 E2) as [g [X [B1 [B2 [G1 G2]]]]].
       exists g. simpl. rewrite S'. split; [assumption|]. split; [assumption|]. split; [assumption|].
       split.
       * intros x C O Q W. rewrite (G1 x C O Q W).
@@ -1003,7 +1087,7 @@ Proof.
       simpl in E2. destruct (step c2 f2 b2 o) as [[h2 d2]|code] eqn:S; [|discriminate].
       rewrite fresh_cons in F2.
       pose proof (incl_app_l _ _ _ _ F2) as Fo. pose proof (incl_app_r _ _ _ _ F2) as Ft.
-      destruct (step_sim c2 N2 f2 f b2 o h2 d2 I2 Fo A2 S) as [h [S' [Ah _]]].
+      destruct (step_sim c2 N2 f2 f b2 o h2 d2 I2 Fo A2 K2 S) as [h [S' [Ah [_ Kh]]]].
       assert (I2' : inv c2 N2 d2) by (exact (step_keeps_inv c2 N2 f b2 o h d2 I2 Fo S')).
       assert (FR : forall x, writes c2 N2 x = false -> lookup h x = lookup f x)
         by (intros x Hw; exact (step_frame_w c2 N2 f b2 o h d2 x I2 Fo S' Hw)).
@@ -1011,7 +1095,11 @@ Proof.
       { intros x Hx. rewrite (A1 x Hx). symmetry. apply FR.
         apply (reads_false_of_sep (reads c1 N1) (writes c2 N2) x S21).
         exact (region_reads c1 N1 b1 x I1 Hx). }
-      destruct (IH h f1 h2 b1 d2 g1 b1' g2 b2' I1 I2' F1 Ft A1' Ah E1 E2) as [g [X [B1 [B2 [G1 G2]]]]].
+      assert (K2' : kagree c2 h2 h) by (intros x Hx; apply Kh; apply K2; assumption).
+      assert (K1' : kagree c1 f1 h).
+      { intros x Hx. rewrite (K1 x Hx). rewrite FR; [reflexivity|].
+        apply (reads_false_of_sep (kregion c1) (writes c2 N2) x SK21). assumption. }
+      destruct (IH h f1 h2 b1 d2 g1 b1' g2 b2' I1 I2' F1 Ft A1' Ah K1' K2' E1 E2) as [g [X [B1 [B2 [G1 G2]]]]].
       exists g. simpl. rewrite S'. split; [assumption|]. split; [assumption|]. split; [assumption|].
       split.
       * intros x C O Q W. rewrite (G1 x C O Q W). apply FR. assumption.
@@ -1109,10 +1197,30 @@ Proof.
   - eapply Hw; eauto.
 Qed.
 
+Lemma cone_not_kregion : forall c1 c2 N x,
+  c_scratch c1 = c_scratch c2 -> outside_scratch c2 = true ->
+  in_cone c1 N x = true -> kregion c2 x = false.
+Proof.
+  intros c1 c2 N x Hs Ho Hc. destruct (kregion c2 x) eqn:K; [exfalso|reflexivity].
+  unfold kregion in K. apply existsb_exists in K. destruct K as [d [Hd Hp]].
+  unfold in_cone in Hc. apply existsb_exists in Hc. destruct Hc as [n [_ Hn]].
+  pose proof (is_prefix_trans _ _ _ Hn Hp) as T. rewrite Hs in T.
+  destruct Hd as [<-|Hd].
+  - apply is_prefix_spec in T. destruct T as [r T].
+    assert (L : length (c_scratch c2) = length ((c_scratch c2 ++ [n]) ++ r)) by (rewrite <- T; reflexivity).
+    rewrite !app_length in L. simpl in L. lia.
+  - assert (P : is_prefix (c_scratch c2) d = true).
+    { eapply is_prefix_trans; [|exact T]. apply is_prefix_spec. eauto. }
+    rewrite (outside_scratch_spec c2 d Ho) in P; [discriminate|].
+    destruct Hd as [Hd|Hd]; [left; auto|]. right. apply in_app_or in Hd. assumption.
+Qed.
+
 Lemma compatb_sep : forall c1 N1 c2 N2, compatb c1 N1 c2 N2 = true ->
   (forall x, writes c1 N1 x = true -> reads c2 N2 x = false) /\
   (forall x, writes c2 N2 x = true -> reads c1 N1 x = false) /\
-  outside_scratch c1 = true /\ outside_scratch c2 = true.
+  outside_scratch c1 = true /\ outside_scratch c2 = true /\
+  (forall x, writes c1 N1 x = true -> kregion c2 x = false) /\
+  (forall x, writes c2 N2 x = true -> kregion c1 x = false).
 Proof.
   intros c1 N1 c2 N2 H. unfold compatb in H.
   repeat (apply andb_true_iff in H; destruct H as [H ?]).
@@ -1125,12 +1233,22 @@ Proof.
     congruence. }
   assert (D21 : forall n, In n N2 -> ~ In n N1) by (intros n I2 I1; eapply D12; eauto).
   assert (W12 : forall p, In p (wlist c1) -> ~ In p (rlist c2)).
-  { intros p I1 I2. specialize (W1 p I1). apply negb_true_iff in W1. apply mem_In in I2. congruence. }
+  { intros p I1 I2. specialize (W1 p I1). apply andb_true_iff in W1. destruct W1 as [W1 _].
+    apply negb_true_iff in W1. apply mem_In in I2. congruence. }
   assert (W21 : forall p, In p (wlist c2) -> ~ In p (rlist c1)).
-  { intros p I1 I2. specialize (W2 p I1). apply negb_true_iff in W2. apply mem_In in I2. congruence. }
-  split; [|split; [|split]]; auto.
+  { intros p I1 I2. specialize (W2 p I1). apply andb_true_iff in W2. destruct W2 as [W2 _].
+    apply negb_true_iff in W2. apply mem_In in I2. congruence. }
+  split; [|split; [|split; [|split; [|split]]]]; auto.
   - eapply sep_one; eauto.
   - eapply sep_one; eauto.
+  - intros x Hw. apply writes_cases in Hw. destruct Hw as [Hw|Hw].
+    + eapply cone_not_kregion; [| exact O2 | exact Hw]. assumption.
+    + specialize (W1 x Hw). apply andb_true_iff in W1. destruct W1 as [_ W1].
+      apply negb_true_iff in W1. assumption.
+  - intros x Hw. apply writes_cases in Hw. destruct Hw as [Hw|Hw].
+    + eapply cone_not_kregion; [| exact O1 | exact Hw]. symmetry. assumption.
+    + specialize (W2 x Hw). apply andb_true_iff in W2. destruct W2 as [_ W2].
+      apply negb_true_iff in W2. assumption.
 Qed.
 
 (* ------------------------------------------------------------------ concurrent_noninterference *)
@@ -1158,12 +1276,13 @@ Theorem concurrent_noninterference_thm : forall c1 c2 f il g1 g2,
 Proof.
   intros c1 c2 f il g1 g2 Q1 Q2 H1 H2 HC.
   set (N1 := fresh_names c1 (proj true il)) in *. set (N2 := fresh_names c2 (proj false il)) in *.
-  apply compatb_sep in HC. destruct HC as [S12 [S21 [O1 O2]]].
+  apply compatb_sep in HC. destruct HC as [S12 [S21 [O1 [O2 [SK12 SK21]]]]].
   apply accept_exec in H1. destruct H1 as [b1' [E1 D1]].
   apply accept_exec in H2. destruct H2 as [b2' [E2 D2]].
-  destruct (exec2_sim c1 c2 N1 N2 S12 S21 il f f f bk0 bk0 g1 b1' g2 b2'
+  destruct (exec2_sim c1 c2 N1 N2 S12 S21 SK12 SK21 il f f f bk0 bk0 g1 b1' g2 b2'
               (inv_bk0 _ _) (inv_bk0 _ _) (incl_refl _) (incl_refl _)
-              (agree_refl _ _) (agree_refl _ _) E1 E2) as [g [X [B1 [B2 [G1 G2]]]]].
+              (agree_refl _ _) (agree_refl _ _) (fun _ _ => eq_refl) (fun _ _ => eq_refl) E1 E2)
+    as [g [X [B1 [B2 [G1 G2]]]]].
   exists g. split; [|split].
   - unfold accept2. apply run2_exec2. eauto.
   - intros o Ho. destruct (mem o (b_owned b1')) eqn:M.
